@@ -26,6 +26,7 @@ import shutil
 import struct
 import subprocess
 import sys
+sys.setrecursionlimit(20000)       # deeply nested values (family `deep`) are walked recursively
 import tempfile
 from collections import Counter
 
@@ -1225,6 +1226,11 @@ def fixed_texts():
             '"\\udbff\\udfff"', '"\\u0000"', '"\\u001f"', '"\\u007f"', '"\\u2028\\u2029"', '"\\"\\\\\\/\\b\\f\\n\\r\\t"',
             '"/"', '"\\/"', '"\x7f"', '" "', '"\U00010000￿"', "null", "true", "false",
             '["\\u00e9","é"]', '{"é":"\\u00e9"}']
+    # nesting far beyond hand-written documents (RFC 8259 sets no limit; a reader with a depth bound would
+    # reject what the writer prints). As texts only: the helper's *request* parser has a nesting limit.
+    for depth in (100, 255, 256, 257, 300):
+        out.append("[" * depth + "1" + "]" * depth)
+        out.append('{"k":[' * (depth // 2) + "null" + "]}" * (depth // 2))
     return [(t, [t]) for t in out]
 
 
@@ -1271,6 +1277,17 @@ def family_values(fam, arg, rng, tier):
         return gen.small_trees(TREE_ATOMS, keys, max_nodes)[lo:hi]
     if fam == "keys":
         return keys_family(rng, arg)
+    if fam == "deep":
+        # nesting well beyond what hand-written documents have (a reader with a depth bound must still read
+        # what the writer prints); alternating arrays and objects, a scalar at the bottom
+        out = []
+        for depth in arg:
+            v = 1
+            for i in range(depth):
+                v = [v] if i % 2 == 0 else Obj([(S("k"), v)])
+            out.append(v)
+            out.append([0, v, Obj([(S("a"), v)])])
+        return out
     if fam == "rand":
         n, depth, width = arg
         return [rand_tree(rng, depth, width) for _ in range(n)]
